@@ -11,6 +11,11 @@ Shared machinery for everything that rests on Model/Creators.v (C01, C02, C03, C
   `encode` predict its BYTES (name and root derived with Spec/PathSem.v name_of / pathlib_str from the working directory
   and the path spelling the creator was given) -- compared byte for byte;
 * the correspondence of Spec/PathSem.v with os.path / pathlib of the interpreter that runs /repo.
+
+Symbolic links: the `node` of the model is a regular file or a directory -- the model has no notion of a link and PathSem is
+lexical.  The trees and spellings of the unit correspondence are therefore link-free ON PURPOSE; payloads with symbolic links
+(trees.add_links, the aimed sequences of C08 / C12) are judged end to end only, by the property's own reading (a reader that
+follows links), never handed to the model.
 """
 import os
 import random
